@@ -19,6 +19,7 @@ from __future__ import annotations
 
 import itertools
 import math
+import os
 import time
 from fractions import Fraction
 
@@ -463,6 +464,9 @@ def solve(conds, timeout_s=60, exp_axioms=True, pair_axioms=True, want_smt2=Fals
         share = remaining if k == len(levels) - 1 else min(40.0, max(2.0, remaining / (len(levels) - k)))
         low = Lowering(roots, exp_axioms, pair_axioms, level=lv)
         zs = [low.b(c) for c in conds]
+        if os.environ.get("BBVERIF_AXIOM_AUDIT"):
+            from .audit import maybe_audit
+            maybe_audit(low)
         s = z3.Solver() if tactic is None else z3.Then(*tactic).solver() if isinstance(tactic, (list, tuple)) \
             else z3.Tactic(tactic).solver()
         s.set("timeout", int(share * 1000))
